@@ -20,6 +20,13 @@ STOP scripted per (trial, resource level), paused trials resumed through ``sugge
 After every step (each result handed to ``scheduler.on_trial_result``, each row appended to the results log, each back-end
 call, each sleep) the clauses below are checked against an independent reference kept here (a ghost log of what each run
 reported / what the table says), and at the end of each tuning run the completeness clauses and the results file on disk.
+The catalogue of (a1) is run a second time without the Tuner by a minimal front end which polls EVERY trial at every tick
+(also paused / stopping / stopped ones), so that hiding results of such trials is exercised as the back end's own job.
+
+Scenario families: enumerated small cases (generic: every batching of <= 3 results over <= 3 polls x completion in the same
+poll / one poll later x decision at every position x late output of the worker x second run after resume; simulator: every
+defect kind at every position of a 4-level elapsed column x run through / pause at each level / two pause-resume cycles /
+stop and restart x check-pointing x delays x sleep time) and seed-dependent random ones (np.random.RandomState(seed)).
 
 What the statements leave open, and how it is treated (no false alarms):
   * the order in which results of DIFFERENT trials are delivered is open -- only per-trial order is checked;
@@ -27,22 +34,22 @@ What the statements leave open, and how it is treated (no false alarms):
     run's own completion at the tuner's last poll and the scheduler had not decided to stop / pause the run;
   * "after the scheduler decided to stop or pause": counted from the scheduler's point of view, i.e. after
     ``on_trial_result`` returned STOP / PAUSE for a result of a run, no further result of that run may be delivered;
-  * time stamps: where the table's elapsed times since the resume point are regular (first one >= 0.01 s, each increment
-    >= 0.01 s -- the back end's documented repair step) the stamp is determined exactly:
+  * time stamps: where the table's elapsed time since the resume point lies at least 0.01 s (the back end's documented
+    repair step) after the previous report of the run (first report: after the run's start) the stamp is determined exactly:
         stamp = (simulated time when start/resume was issued + delay_start) + (elapsed(level) - elapsed(resume level))
                 + delay_on_trial_result                                   (tolerance 1e-9 relative, round-off only);
     where the column is non-monotone the statement cannot hold literally (C02 demands report order): then only
         max(table value, previous stamp) <= stamp <= max(table value, previous stamp + 0.01 s)
-    is required (not earlier than the table says, in report order, repair bounded by the documented 0.01 s step);
+    is required (not earlier than the table says, in report order, repair bounded by the documented 0.01 s step); a column
+    that is regular again after a dip is therefore checked exactly again as soon as it has overtaken the repaired stamps;
   * pause / stop are allowed to advance simulated time by delay_stop + delay_complete_after_stop plus at most 0.01 s (the
     back end steps just past its own stop / completion events); start, resume, poll advance it by the outside time only.
 
 Known defects of the pinned tree are kept apart under their own clause names (everything checked inside those scenario
 families is reported under the family's clause, so that the other clauses stay meaningful):
   * ``generic-backend/reports-written-after-a-pause-decision-are-never-delivered-after-resume``  (finding F5)
-  * ``start-jobs-without-delay-off/trials-started-while-a-finished-trial-is-still-listed-are-polled-and-delivered`` (F9)
+  * ``start-jobs-without-delay-off/trials-started-when-fewer-jobs-are-busy-than-the-tuner-lists-are-polled-and-delivered`` (F9)
   * ``simulator/resume-of-a-trial-paused-at-its-final-level-reports-nothing-and-completes``
-  * ``simulator/start-jobs-without-delay-off/trials-still-in-their-start-delay-are-polled-and-delivered``
 
 Bounded stand-in, never counted as proved.
 """
@@ -83,14 +90,14 @@ C_MONO = "simulator/simulated-time-never-runs-backwards"
 C_CHARGE = "simulator/outside-real-time-and-sleep-charged-exactly-once"
 C_FUTURE = "simulator/result-never-delivered-before-its-time-stamp"
 C_F5 = "generic-backend/reports-written-after-a-pause-decision-are-never-delivered-after-resume"
-C_F9 = "start-jobs-without-delay-off/trials-started-while-a-finished-trial-is-still-listed-are-polled-and-delivered"
+C_F9 = "start-jobs-without-delay-off/trials-started-when-fewer-jobs-are-busy-than-the-tuner-lists-are-polled-and-delivered"
 C_FINAL = "simulator/resume-of-a-trial-paused-at-its-final-level-reports-nothing-and-completes"
-C_SJSIM = "simulator/start-jobs-without-delay-off/trials-still-in-their-start-delay-are-polled-and-delivered"
 
-CLAUSES = [C_ONCE, C_ORDER, C_AFTER, C_RESUME, C_WHOLE, C_SAME, C_LOG, C_FILE, C_TERM, C_VALUES, C_LEVELS, C_SEED, C_STAMP, C_REPAIR, C_MONO, C_CHARGE, C_FUTURE, C_F5, C_F9, C_FINAL, C_SJSIM]
+CLAUSES = [C_ONCE, C_ORDER, C_AFTER, C_RESUME, C_WHOLE, C_SAME, C_LOG, C_FILE, C_TERM, C_VALUES, C_LEVELS, C_SEED, C_STAMP, C_REPAIR, C_MONO, C_CHARGE, C_FUTURE, C_F5, C_F9, C_FINAL]
 
 REPAIR_STEP = 0.01  # documented minimal step of the back end's monotonicity repair
 MAX_VIOLATIONS_PER_CLAUSE = 5
+SAMPLE_FAMILIES = ("generic-enumerated", "generic-random", "simulator-enumerated", "simulator-random")
 MAX_POLLS = 400  # a tuning run which polls more often than this is reported as not terminating
 
 _ENV = None
@@ -121,7 +128,7 @@ class Ctx:
         self.route = route
         self.scenarios.add(json.dumps(spec, sort_keys=True, default=str))
         fam = spec.get("family")
-        if len(self.samples) < 4 and fam not in [x["family"] for x in self.samples] and len(self.scenarios) % 7 == 3:
+        if fam in SAMPLE_FAMILIES and fam not in [x["family"] for x in self.samples] and len(self.scenarios) % 7 == 3:
             small = {k: v for k, v in spec.items() if k not in ("table",)}
             if "table" in spec:
                 small["table_columns"] = spec["table"]["columns"][:6]
@@ -581,7 +588,7 @@ class GenMon(BaseMon):
             self.log_seq.append((None, None))
         self.ctx.check(C_LOG, ok, **self.ident(trial=trial.trial_id, rows=[{k_: v for k_, v in r.items()} for r in rows], delivery=self.sched_seq[k][:3] if k < len(self.sched_seq) else None))
 
-    def finish(self, final_tick):
+    def finish(self, final_tick, with_log=True):
         ctx = self.ctx
         for t, runs in sorted(self.runs.items()):
             for run in runs:
@@ -596,7 +603,8 @@ class GenMon(BaseMon):
                         completion_registered_at_poll=run.completed_at,
                         last_poll=final_tick,
                     )
-        ctx.check(C_LOG, len(self.log_seq) == len(self.sched_seq), at="end", log_rows=len(self.log_seq), deliveries=len(self.sched_seq))
+        if with_log:
+            ctx.check(C_LOG, len(self.log_seq) == len(self.sched_seq), at="end", log_rows=len(self.log_seq), deliveries=len(self.sched_seq))
 
     def file_rows(self):
         return [(t, uid, float(res["loss"])) for t, uid, _, res in self.sched_seq]
@@ -852,7 +860,7 @@ def _check_file(E, ctx, mon, tuner, key):
     got = None
     try:
         if os.path.exists(path):
-            df = pd.read_csv(path)
+            df = pd.read_csv(path, float_precision="round_trip")
             got = [(int(a), int(b), float(c)) for a, b, c in zip(df[E.ST_TRIAL_ID].tolist(), df[key].tolist(), df["loss"].tolist())] if len(df) else []
         elif not want:
             got = []
@@ -870,6 +878,55 @@ def run_generic(E, ctx, spec, route=None):
     mon.finish(backend.tick)
     _check_file(E, ctx, mon, tuner, "uid")
     shutil.rmtree(tuner.tuner_path, ignore_errors=True)
+    return mon
+
+
+def run_generic_direct(E, ctx, spec, route=None):
+    """the same worker model and ghost log, but WITHOUT the Tuner: a minimal front end which polls EVERY trial it ever started
+    (also paused, stopping and stopped ones) at every tick, so that hiding the results of such trials is the back end's job
+    alone (``TrialBackend.fetch_status_results``); results after a decision in the same batch are skipped like the Tuner does"""
+    from types import SimpleNamespace
+
+    ctx.begin(spec, route)
+    mon = GenMon(ctx, spec)
+    backend = E.TickBackend(mon, spec.get("stamp_mode", "tick"))
+    active, started, exhausted, err, idle = set(), [], False, None, 0
+    try:
+        while idle < 4:
+            while not exhausted and len(active) < spec["n_workers"]:
+                act = mon.next_suggestion(backend.new_trial_id())
+                if act is None:
+                    exhausted = True
+                elif act[0] == "new":
+                    trial = backend.start_trial(act[2])
+                    started.append(trial.trial_id)
+                    active.add(trial.trial_id)
+                else:
+                    backend.resume_trial(act[1])
+                    active.add(act[1])
+            status, results = backend.fetch_status_results(list(started))
+            done = set()
+            for tid, res in results:
+                if tid in done:
+                    continue
+                decision = mon.deliver(SimpleNamespace(trial_id=tid), res)
+                if decision == STOP:
+                    if status[tid][1] != E.Status.completed:
+                        backend.stop_trial(tid, res)
+                elif decision == PAUSE:
+                    backend.pause_trial(tid, res)
+                if decision != CONTINUE:
+                    done.add(tid)
+                    active.discard(tid)
+            for tid, (_, st) in status.items():
+                if st == E.Status.completed:
+                    active.discard(tid)
+            # a few more polls after the last job ended, so that late output of stopping workers becomes visible
+            idle = idle + 1 if (exhausted and not active) else 0
+    except Exception as exc:
+        err = "%s: %s | %s" % (type(exc).__name__, exc, traceback.format_exc()[-700:])
+    ctx.check(C_TERM, err is None, exception=err, events=[list(e) for e in mon.events[-8:]])
+    mon.finish(backend.tick, with_log=False)
     return mon
 
 
@@ -1134,7 +1191,7 @@ SLEEPS = [0.25, 1.0, 2.5, 7.0, 40.0]
 THINKS = [[0.0], [0.0, 0.25], [2.0, 0.0, 0.5], [0.125]]
 
 
-def sim_spec(rs, idx, family="simulator-random", final_level_resume=False, sjwd_off_with_start_delay=False):
+def sim_spec(rs, idx, family="simulator-random", final_level_resume=False, sjwd=True):
     n_fid = int(rs.randint(3, 7))
     n_cfg = int(rs.randint(5, 11))
     n_seed = int(rs.randint(1, 4))
@@ -1201,12 +1258,6 @@ def sim_spec(rs, idx, family="simulator-random", final_level_resume=False, sjwd_
     elif u < 0.3:
         stop = {"max_num_trials_finished": int(rs.randint(0, 3))}
     delays = DELAYS[int(rs.randint(len(DELAYS)))]
-    if sjwd_off_with_start_delay:
-        delays = [d for d in DELAYS if d[3] > 0][idx % 3]
-        sjwd = False
-    else:
-        # with start_jobs_without_delay=False only without a start delay (see the clause kept apart for the other case)
-        sjwd = not (delays[3] == 0 and rs.uniform() < 0.4)
     return {
         "family": family,
         "table": {"n_cfg": n_cfg, "n_seed": n_seed, "elapsed": el.tolist(), "columns": desc},
@@ -1292,7 +1343,9 @@ def monitor_delivery(tier="quick", seed=0):
     rs = np.random.RandomState(seed)
     ctx = Ctx(seed, tier)
     clock = E.Clock()
-    tmp_root = tempfile.mkdtemp(prefix="c02_native_", dir="/var/tmp" if os.path.isdir("/var/tmp") else None)
+    # the Tuner writes its metadata / results files here (removed at the end); memory file system when there is one
+    tmp_base = [d for d in ("/dev/shm", "/var/tmp") if os.path.isdir(d) and os.access(d, os.W_OK)]
+    tmp_root = tempfile.mkdtemp(prefix="c02_native_", dir=tmp_base[0] if tmp_base else None)
     old_env = os.environ.get("SYNETUNE_FOLDER")
     os.environ["SYNETUNE_FOLDER"] = tmp_root
     old_time = E.tk_mod.time
@@ -1305,7 +1358,8 @@ def monitor_delivery(tier="quick", seed=0):
         # (a1) generic poll logic under the real Tuner
         regular, f5 = generic_enumeration(tier)
         if thorough:
-            f5 = f5[seed % 8 :: 8]
+            regular = regular[seed % 3 :: 3]
+            f5 = f5[seed % 24 :: 24]
         else:
             regular = regular[seed % 9 :: 9]
             f5 = f5[seed % 90 :: 90]
@@ -1314,33 +1368,40 @@ def monitor_delivery(tier="quick", seed=0):
         for spec in f5:
             run_generic(E, ctx, spec, route=C_F5)
         n["generic-enumerated"] = len(regular)
-        n["generic-random"] = 1500 if thorough else 220
+        n["generic-random"] = 700 if thorough else 220
         for spec in generic_random(rs, n["generic-random"]):
             run_generic(E, ctx, spec)
-        n["late-after-pause-then-resume"] = len(f5) + (60 if thorough else 12)
-        for spec in generic_random(rs, 60 if thorough else 12, late_after_pause_resumed=True):
+        # the same catalogue at the back-end interface, every trial polled at every tick (no Tuner)
+        direct = [dict(spec, family="generic-direct-poll-all-trials") for spec in regular[::3]]
+        direct += [dict(spec, family="generic-direct-poll-all-trials") for spec in generic_random(rs, 200 if thorough else 60)]
+        for spec in direct:
+            run_generic_direct(E, ctx, spec)
+        n["generic-direct-poll-all-trials"] = len(direct)
+        n["late-after-pause-then-resume"] = len(f5) + (40 if thorough else 12)
+        for spec in generic_random(rs, 40 if thorough else 12, late_after_pause_resumed=True):
             spec["family"] = "generic-late-reports-after-pause-then-resume"
             run_generic(E, ctx, spec, route=C_F5)
-        n["completion-between-poll-and-busy-query"] = 60 if thorough else 12
+        n["completion-between-poll-and-busy-query"] = 40 if thorough else 12
         for spec in generic_random(rs, n["completion-between-poll-and-busy-query"], busy_lag=True):
             spec["family"] = "generic-start-jobs-without-delay-off-completion-between-poll-and-busy-query"
             run_generic(E, ctx, spec, route=C_F9)
         # (a2) + (b) simulator back end under the real Tuner
         enum = sim_enumeration(tier)
-        if not thorough:
-            enum = enum[seed % 8 :: 8]
+        enum = enum[seed % 2 :: 2] if thorough else enum[seed % 8 :: 8]
         for spec in enum:
             run_sim(E, ctx, spec, clock)
         n["simulator-enumerated"] = len(enum)
-        n["simulator-random"] = 2200 if thorough else 260
+        n["simulator-random"] = 1100 if thorough else 260
         for i in range(n["simulator-random"]):
             run_sim(E, ctx, sim_spec(rs, i + 7 * seed), clock)
-        n["resume-after-pause-at-final-level"] = 24 if thorough else 6
+        n["resume-after-pause-at-final-level"] = 16 if thorough else 6
         for i in range(n["resume-after-pause-at-final-level"]):
             run_sim(E, ctx, sim_spec(rs, i + seed, family="simulator-resume-after-pause-at-final-level", final_level_resume=True), clock, route=C_FINAL)
-        n["simulator-sjwd-off-with-start-delay"] = 24 if thorough else 6
-        for i in range(n["simulator-sjwd-off-with-start-delay"]):
-            run_sim(E, ctx, sim_spec(rs, i + seed, family="simulator-start-jobs-without-delay-off-with-start-delay", sjwd_off_with_start_delay=True), clock, route=C_SJSIM)
+        # start_jobs_without_delay=False on the simulator: a job counts as busy only between its (delayed) start event and
+        # its completion event, both of which are processed inside other back-end calls
+        n["simulator-start-jobs-without-delay-off"] = 16 if thorough else 6
+        for i in range(n["simulator-start-jobs-without-delay-off"]):
+            run_sim(E, ctx, sim_spec(rs, i + seed, family="simulator-start-jobs-without-delay-off", sjwd=False), clock, route=C_F9)
     finally:
         E.tk_mod.time = old_time
         np.random.set_state(np_state)
